@@ -876,6 +876,7 @@ package cose
 //@       enc(arr(cv_tstr(csctx(abbrev, true)), cv_raw(canon(ProtBytes(h))), cv_raw(canon(bytes(signProt))), cv_bstr(bytes(external)), payloadcv(payload), arr(cv_raw(enc(cv_bstr(bytes(sig)))))))
 
 //@ func countersignToBeSigned
+//@   decreases ptr_then_value [C06]: (target is *Sign1Message || target is *SignMessage || target is *Signature || target is *Countersignature) ? 1 : 0
 //@   requires ptr_nonnil: (target is *Sign1Message ==> target.(*Sign1Message) != nil) && (target is *SignMessage ==> target.(*SignMessage) != nil)
 //@         && (target is *Signature ==> target.(*Signature) != nil) && (target is *Countersignature ==> target.(*Countersignature) != nil)
 //@   ensures sign1_val [C03, C07, C10]: target is Sign1Message && err == nil ==> len(target.(Sign1Message).Signature) > 0 && target.(Sign1Message).Payload != nil
